@@ -47,7 +47,7 @@ SECTION_BODY = {
 BANNER = ("# ============================================================================\n"
           "# GLOBAL SETTINGS\n"
           "# ============================================================================\n")
-APP_FILES = [None, "cfg/app.yaml", "cfg/app.json", ".thailint.yaml", "config.yaml"]
+APP_FILES = [None, None, "cfg/app.yaml", "cfg/app.json", ".thailint.yaml", "config.yaml", "config.json"]
 
 VALID = {
     "log_level": ["DEBUG", "INFO", "WARNING", "ERROR", "CRITICAL"],
@@ -141,9 +141,25 @@ def gen_user_yaml(t) -> str:
         parts.append("notes: |" + t.pick(["", "", "+", "-"], "chomp") + "\n  first line\n  second line\n" + ("\n\n" if t.chance(1, 3, "scalar_blank") else ""))
     if t.chance(1, 10, "marker_in_scalar"):
         parts.append("banner_text: |\n  # ============================================================================\n  # GLOBAL SETTINGS\n  keep this\n")
+    if t.chance(1, 8, "null_section"):
+        missing = [x for x in SECTIONS if x not in secs]
+        if missing:
+            parts.append(t.pick(missing, "null_sec") + t.pick([":\n", ": ~\n", ": null\n", ": {}\n"], "null_style"))
+    if t.chance(1, 8, "commented_section"):
+        parts.append("# " + t.pick(SECTIONS, "com_sec") + ":\n#   enabled: false\n")
+    if t.chance(1, 10, "anchor"):
+        parts.append("shared_defaults: &shared\n  enabled: true\n  min_methods: 4\nteam_copy: *shared\n")
+    if t.chance(1, 12, "tab_comment"):
+        parts.append("\t# tab-indented note\n")
+    if t.chance(1, 10, "trailing_comment_block"):
+        parts.append("# --- end of settings ---\n# last reviewed: never\n")
     text = "".join(parts)
     if not text.strip() or not secs and not t.chance(1, 2, "empty_ok"):
         text += "rules: {}\n"
+    if t.chance(1, 12, "doc_end"):
+        text = text.rstrip("\n") + "\n...\n"
+    if t.chance(1, 16, "bom"):
+        text = "\ufeff" + text
     end = t.draw(12, "ending")
     if end == 0:
         text = text.rstrip("\n")
@@ -165,9 +181,12 @@ def gen(run_seed: int, tier: str) -> dict:
     elif mode < 8:
         initial[".thailint.yaml"] = {"generate": t.pick(["strict", "standard", "lenient"], "preset")}
     if t.chance(1, 3, "appyaml"):
-        initial["config.yaml"] = "greeting: Hola\nlog_level: WARNING\n"
+        initial["config.yaml"] = "greeting: Hola\nlog_level: WARNING\n" + t.pick(
+            ["", "team:\n  owner: platform\n  size: 4\n", "empty_key:\nratio: 1000.0\nbig: 12345678901234567890\n", "flag: yes\nlabel: '007'\n"], "appyaml_extra")
     if t.chance(1, 4, "appjson"):
-        initial["cfg/app.json"] = json.dumps({"greeting": "Hej", "max_retries": 2}, indent=2)
+        initial["cfg/app.json"] = json.dumps({"greeting": "Hej", "max_retries": 2, "nested": {"a": [1, 2], "b": None}}, indent=2)
+    if t.chance(1, 6, "cwdjson"):
+        initial["config.json"] = json.dumps({"greeting": "Ciao", "timeout": 12.5, "label": "007"}, indent=2)
     events = []
     n = 5 + t.draw(12, "nev")
     for _ in range(n):
@@ -399,6 +418,16 @@ def _execute(zy, sc: dict, W: World, real: bool) -> dict:
         else:
             W.write(rel, {"b64": __import__("base64").b64encode(content.encode("utf-8")).decode()})
     model: dict[str, dict] = {}     # app-config file -> {key: typed value} the user has set and not since reset
+    for rel in ("config.yaml", "cfg/app.json", "config.json"):
+        # what the user wrote into an app config by hand counts as set: an unrelated `config set` must keep it
+        content = sc["initial"].get(rel)
+        if isinstance(content, str):
+            try:
+                doc = json.loads(content) if rel.endswith(".json") else yaml.safe_load(content)
+            except Exception:
+                doc = None
+            if isinstance(doc, dict):
+                model[rel] = {_norm(k): v for k, v in doc.items() if isinstance(k, str)}
     last_writer: dict[str, str] = {}
     file_digests = []
     tracked = [".thailint.yaml", "config.yaml", "config.json", "cfg/app.yaml", "cfg/app.json", "alt/lint.yaml"]
@@ -445,8 +474,10 @@ def _step(R, W, sc, ev, i, kind, failures, stats, note_write, model):
             argv = (["--config", rel] if rel else []) + ["config", "get", key]
             r = R.cli(argv)
             mk = model.get(rel or "config.yaml", {})
-            if key in mk and r["exit"] is not None:
-                want = str(mk[key])
+            if rel is None and _read(str(W.proj / "config.yaml")) is None:
+                mk = model.get("config.json", {}) if _read(str(W.proj / "config.json")) is not None else {}
+            if _norm(key) in mk and r["exit"] is not None:
+                want = str(mk[_norm(key)])
                 if r["exit"] != 0 or r["stdout"].rstrip("\n") != want:
                     failures.append(_fail("accepted-but-different", "config-get", f"key={key} deferred", want=want, exit=r["exit"],
                                           got=r["stdout"][:200], stderr=r["stderr"][-300:], step=i))
@@ -667,12 +698,14 @@ def _do_set(R, W, ev, failures, stats, note_write, model, step):
         failures.append(_fail("accepted-invalid", "config-set", f"key={key}", value=value, step=step))
         return
     tv = typed(value)
-    model.setdefault(target, {})[key] = tv
+    if rel is None and before is None and target == "config.yaml" and "config.json" in model and _read(str(W.proj / "config.json")) is not None:
+        model.setdefault(target, {}).update(model["config.json"])     # first existing default location was config.json
+    model.setdefault(target, {})[_norm(key)] = tv
     g = R.cli((["--config", rel] if rel else []) + ["config", "get", "--", key])
     if g["exit"] != 0 or g["stdout"].rstrip("\n") != str(tv):
         failures.append(_fail("accepted-but-different", "config-get", f"key={'hyphenated' if '-' in key else 'validated' if key in VALID else 'free'}",
                               key=key, value=value, want=str(tv), exit=g["exit"], got=g["stdout"][:200], stderr=g["stderr"][-300:], step=step))
-        model[target].pop(key, None)
+        model[target].pop(_norm(key), None)
     doc, err = (_parse_yaml_bytes(after) if not path.endswith(".json") else (None, None))
     if path.endswith(".json"):
         try:
